@@ -1,6 +1,8 @@
 (* Extraction for the C03 / C05 correspondence drivers (unlock machine, SignRawTx, row shapes over
-   the perfect-cryptography instance). ExtrOcamlBasic only: Z/positive/nat stay inductive.
+   the perfect-cryptography instance; for C05 also the keystore manager of Keys/Manager.v).
+   ExtrOcamlBasic only: Z/positive/nat stay inductive.
    Run by lib/vcheck.py inside build/ocaml/C05. *)
 From Coq Require Import Extraction ExtrOcamlBasic.
-Require Import MW.Keys.Unlock MW.Keys.Sign MW.Keys.Exec.
-Extraction "model.ml" x_cfg x_init x_step x_obs x_prog x_sign_raw x_verified x_witness x_rows wit_shape parse_flag.
+Require Import MW.Keys.Unlock MW.Keys.Sign MW.Keys.Exec MW.Keys.Manager MW.Keys.ExecManager.
+Extraction "model.ml" x_cfg x_init x_step x_obs x_prog x_sign_raw x_verified x_witness x_rows wit_shape parse_flag
+           x_name x_mfresh x_wstep x_mobs.
